@@ -692,7 +692,14 @@ func (f Function) lambdaPrint(ps *ast.PrintState, out *strings.Builder) string {
 	} else {
 		out.WriteString("=>")
 	}
-	needBraces := len(f.Body.Statements) != 1 || lambdaBodyNeedsBraces(f.Body.Statements[0])
+	// Comments are not printed in this (compact) form and don't count: x=>{/* c */ 0} is x=>0.
+	var stmts []ast.Node
+	for _, s := range f.Body.Statements {
+		if _, isComment := s.(*ast.Comment); !isComment {
+			stmts = append(stmts, s)
+		}
+	}
+	needBraces := len(stmts) != 1 || lambdaBodyNeedsBraces(stmts[0])
 	if needBraces {
 		out.WriteString("{")
 	}
